@@ -38,7 +38,8 @@ RULE = ("case = one generated program (instances with limits, runs with start in
         "program; non-trivial = the limit was binding in the execution (at least one run entered its first step later than it was started)")
 REQUIRED_REACH = ["body_entry", "entry_at_limit", "run_waited_for_slot", "under_limit_start_checked",
                   "under_limit_start_other_instance_saturated", "runs_executed_checked",
-                  "release_by_failure", "release_by_abort", "release_by_cancel_run", "release_by_timeout", "abort_while_waiting_for_slot"]
+                  "release_by_failure", "release_by_abort", "release_by_cancel_run", "release_by_timeout", "abort_while_waiting_for_slot",
+                  "run_started_from_inside_a_step", "run_started_from_inside_a_step_of_the_same_instance"]
 ASSUMPTIONS = ["virtual-time asyncio loop; BasicRuntime; async steps whose cleanup (`finally`) does not await",
                "'execute steps' is read as 'is inside a step body'; the stricter interval reading is only counted (informational)"]
 VCLOCK = True
@@ -76,6 +77,14 @@ def gen_case(rnd, deep=False):
             r["mode"] = "cancel_run"
             r["cancel_after"] = [rnd.choice([0, 0.25, 0.5, 1]), rnd.randint(0, 3)]
         runs.append(r)
+    if len(runs) >= 3 and rnd.random() < 0.3:
+        # nested starts: some runs are started from inside the first step body of another run (same instance or another one), not awaited there
+        parent = rnd.randrange(len(runs))
+        kids = [k for k in range(len(runs)) if k != parent and rnd.random() < 0.5][:6]
+        for k in kids:
+            runs[k]["parent"] = parent
+            if rnd.random() < 0.7:
+                runs[k]["inst"] = runs[parent]["inst"]
     return {"insts": insts, "runs": runs}
 
 
@@ -101,6 +110,19 @@ class Monitor:
         self.viol: list = []
         self.waited = 0
         self.terminated: dict = {}                       # uid -> how the run ended (abort / cancel_run / outcome)
+        self.spawned: set = set()
+        self.spawner = None
+
+    def spawn_children(self, uid):
+        if uid in self.spawned or self.spawner is None:
+            return
+        self.spawned.add(uid)
+        for k, sp in enumerate(self.case["runs"]):
+            if sp.get("parent") == uid:
+                self.acc.hit("run_started_from_inside_a_step")
+                if sp["inst"] == self.case["runs"][uid]["inst"]:
+                    self.acc.hit("run_started_from_inside_a_step_of_the_same_instance")
+                self.spawner(k)
 
     def runs_in_body(self, i):
         return sum(1 for c in self.inbody[i].values() if c > 0)
@@ -184,9 +206,9 @@ def run_case(case, acc: Acc):
             acc.hit("release_by_cancel_run" if entered else "cancel_run_while_waiting_for_slot")
             await hnd.cancel_run()
 
-    async def starter(k, wfs):
+    async def starter(k, wfs, nested=False):
         sp = runs[k]
-        if sp["at"]:
+        if sp["at"] and not nested:
             await asyncio.sleep(sp["at"])
         i = sp["inst"]
         n = mon.N[i]
@@ -233,7 +255,13 @@ def run_case(case, acc: Acc):
             wf._vf_mon = mon
             wf._vf_idx = idx
             wfs.append(wf)
-        await asyncio.gather(*[starter(k, wfs) for k in range(len(runs))])
+        kids: list = []
+        mon.spawner = lambda k: kids.append(asyncio.ensure_future(starter(k, wfs, nested=True)))
+        await asyncio.gather(*[starter(k, wfs) for k in range(len(runs)) if runs[k].get("parent") is None])
+        while any(not t.done() for t in kids):
+            await asyncio.gather(*list(kids))
+        for t in kids:
+            t.result()
 
     r = vclock.run(main)
     never = [k for k in range(len(runs)) if started[k] and not cancel_req[k] and k not in mon.first_entry]
